@@ -2,10 +2,9 @@
    contexts, and the two loops of PrimitiveTree (searchSubtree, height) on flattened trees. *)
 From Coq Require Import List ZArith NArith Bool Lia.
 From DV Require Import Model.C11_GPTree.
+From DV Require Export Model.C11_Spec.
 Import ListNotations.
 Local Open Scope Z_scope.
-
-Inductive tree := T (n : node) (ks : list tree).
 
 Section tree_ind.
   Variable P : tree -> Prop.
